@@ -88,7 +88,9 @@ impl Stage for Wrap {
         "wrap-streams"
     }
     fn cases(&self, tier: Tier) -> u32 {
-        tier.pick(4, 32)
+        // the shuffled action id of a stream is even or odd with equal chance, and some defects
+        // show for one parity only: enough streams to see both
+        tier.pick(12, 64)
     }
     fn strategy(&self, _t: Tier) -> BoxedStrategy<StreamCase> {
         (0u16..4100, 0u32..3).prop_map(|(skip, extra)| StreamCase { skip, len: (1 << 24) + (2 + extra) * 2048 + 7 }).boxed()
